@@ -465,3 +465,106 @@ def contracts():
     c = _c13.get_param_descriptor_contract()
     c.prop = "C14"
     return _c14_base_gpd() + [c]
+
+
+# ---------------------------------------------------------------------------------------------
+# concrete probes that replay the setter guard and Parameters.__getitem__ obligations (bounded, not proofs)
+# ---------------------------------------------------------------------------------------------
+GUARD_PROBE = '''import sys, os, itertools, fractions, decimal
+sys.path.insert(0, os.environ.get('PYVC_REPO', '/repo'))
+import param
+bad = []
+def fresh_equal(v):
+    # an equal object that is NOT the held one
+    if isinstance(v, bool):
+        return None
+    if isinstance(v, int):
+        return int(str(v))
+    if isinstance(v, float):
+        return float(repr(v))
+    if isinstance(v, str):
+        return ''.join(list(v))
+    if isinstance(v, bytes):
+        return bytes(bytearray(v))
+    if isinstance(v, tuple):
+        return tuple(list(v))
+    if isinstance(v, frozenset):
+        return frozenset(list(v))
+    if isinstance(v, (fractions.Fraction, decimal.Decimal, complex)):
+        return type(v)(str(v)) if not isinstance(v, complex) else complex(v.real, v.imag)
+    return None
+VALUES = [10 ** 20, -(2 ** 70), 1.5, -0.25, 'a rather long text value', b'some bytes', (1, 2, 3), frozenset({1, 2}),
+          fractions.Fraction(1, 3), decimal.Decimal('1.10'), 3 + 4j]
+for v in VALUES:
+    P = type('P', (param.Parameterized,), {'c': param.Parameter(default=None, constant=True)})
+    for how in ('constructor', 'class-default'):
+        if how == 'constructor':
+            p = P(c=v)
+        else:
+            P.c = v; p = P()
+        held = p.c
+        w = fresh_equal(v)
+        if w is None or w is held:
+            continue
+        for route in ('setattr', 'update'):
+            try:
+                if route == 'setattr':
+                    p.c = w
+                else:
+                    p.param.update(c=w)
+            except TypeError:
+                pass
+            else:
+                bad.append('constant parameter holding %r (%s): assigning an equal but different %s object by %s was accepted'
+                           % (v, how, type(v).__name__, route))
+            if p.c is not held:
+                bad.append('constant parameter holding %r (%s): after the attempt by %s the object held changed' % (v, how, route))
+        try:
+            p.c = held                       # the identical object is always accepted
+        except TypeError:
+            bad.append('constant parameter holding %r: re-assigning the identical object raised TypeError' % (v,))
+# an instance of any truth value answers .param[...] with its own, instance-level Parameter
+class Bag(param.Parameterized):
+    c = param.Number(default=1, constant=True)
+    r = param.Number(default=2, readonly=True)
+    items = param.List(default=[])
+    def __len__(self):
+        return len(self.items)
+class Off(param.Parameterized):
+    c = param.Number(default=1, constant=True)
+    r = param.Number(default=2, readonly=True)
+    def __bool__(self):
+        return False
+for cls in (Bag, Off):
+    f = cls()                                  # no instance-level Parameter exists yet
+    with param.parameterized.edit_constant(f):
+        f.c = 5
+    try:
+        f.c = 6
+        bad.append('%s instance (falsy, no instance-level Parameter before the block): constant rebound after edit_constant' % cls.__name__)
+    except TypeError:
+        pass
+    if not f.param.objects('existing')['c'].constant:
+        bad.append('%s instance (falsy): instance-level constant flag left off after edit_constant' % cls.__name__)
+    o = cls()
+    for nm in ('c', 'r'):
+        po = o.param[nm]
+        if po is cls.param[nm] or po.owner is not o:
+            bad.append('%s instance (truth value %r): .param[%r] is not the instance-level Parameter' % (cls.__name__, bool(o), nm))
+        if po.constant is not True:
+            bad.append('%s instance: .param[%r].constant is %r' % (cls.__name__, nm, po.constant))
+    with param.parameterized.edit_constant(o):
+        o.c = 5
+    try:
+        o.c = 6
+        bad.append('%s instance (falsy): constant rebound after edit_constant' % cls.__name__)
+    except TypeError:
+        pass
+    if cls.param['c'].constant is not True or cls().param['c'].constant is not True:
+        bad.append('%s: edit_constant on a falsy instance left the class-level constant flag off' % cls.__name__)
+if bad:
+    print('REPRODUCED: ' + bad[0]); sys.exit(1)
+print('NOT-REPRODUCED'); sys.exit(0)
+'''
+
+PROBES = [("constants: equal-but-different objects are refused; falsy instances answer with their own Parameter", GUARD_PROBE)]
